@@ -924,8 +924,8 @@ def mon_c04(w, F, vd):
                 val = getattr(robj, "value", robj)
                 if val is not conn.lost_reason:
                     vd.bad("C04.notification_reason", "onDisconnection got %r, the loss was %r" % (type(val).__name__, type(conn.lost_reason).__name__))
-                late = [x for x in w.log[g.i:] if x.k == "fire" and x.ctx is not None and x.ctx[0] == "lose" and x.c == e.c]
-                if g.i < e.i or late:
+                evs_l = _ctx_events(w, e)
+                if g.i < (evs_l[-1].i if evs_l else e.i):
                     vd.bad("C04.notification_order", "onDisconnection ran before the pending requests were dealt with")
             elif w.now() > e.t + 0.1 + EPS:
                 vd.bad("C04.not_notified", "onDisconnection was set but not called within %.1fs of the loss" % (w.now() - e.t))
